@@ -74,7 +74,31 @@ func parseLog(log []string) []evt {
 	return out
 }
 
-func clientOfMsg(msg int64) int { return int(msg/1000) - 1 }
+// clientOfMsg / reqOfMsg: which connection of the scenario sent a message ID, and as which request
+// (message ID 0 is only ever used by the one "unbind0" op of a scenario).
+func clientOfMsg(msg int64) int {
+	if msg == 0 && curSpec != nil {
+		for ci, c := range curSpec.Conns {
+			if hasOp(c.Ops, "unbind0") {
+				return ci
+			}
+		}
+	}
+	return int(msg/1000) - 1
+}
+
+func reqOfMsg(msg int64) int {
+	if msg == 0 && curSpec != nil {
+		for _, c := range curSpec.Conns {
+			for k, o := range c.Ops {
+				if o == "unbind0" {
+					return k + 1
+				}
+			}
+		}
+	}
+	return int(msg % 1000)
+}
 
 // universal evaluates the oracles that hold for every scenario on the full fixture.
 func universal(sc *Scn, x *vrt.Sched, w *World) []Finding {
@@ -99,26 +123,52 @@ func universal(sc *Scn, x *vrt.Sched, w *World) []Finding {
 		return fs
 	}
 
-	// ---- deadlocks
+	// ---- deadlocks: no thread can run any more, so the state is final and every promise that is still
+	// open in it is broken for good
 	if x.Deadlock {
 		blocked := strings.Join(x.Blocked, " ")
 		stopBlocked := strings.Contains(blocked, "stopper@") || strings.Contains(blocked, "stopper2@")
-		clientsQuiet := true
-		for _, b := range x.Blocked {
-			if strings.HasPrefix(b, "c") && strings.Contains(b, "@") && !strings.Contains(b, ".Read") && !strings.HasPrefix(b, "conn") {
-				// a client blocked on anything but a read is part of the deadlock, not a quiet environment
+		key := "blocked: " + roles(x.Blocked)
+		seen := map[string]bool{}
+		addOnce := func(prop, k, d string) {
+			if !seen[prop] {
+				seen[prop] = true
+				add(prop, k, d)
 			}
 		}
-		key := "blocked: " + roles(x.Blocked)
-		switch {
-		case stopBlocked && clientsQuiet:
-			add("C11", "Stop never returns while clients do nothing further; "+key, "no thread can run; "+blocked)
-		default:
-			add(sc.Props[0], "deadlock; "+key, "no thread can run; "+blocked)
+		if stopBlocked {
+			addOnce("C11", "Stop never returns while clients do nothing further; "+key, "no thread can run; "+blocked)
+		} else {
+			addOnce(sc.Props[0], "deadlock; "+key, "no thread can run; "+blocked)
 		}
-		// C06: a dispatcher that serialises handlers deadlocks on the rendezvous
+		// C06: a handler (or the read loop serving one inline) still waits at a harness gate: every gate of a
+		// scenario opens once the requests behind it are dispatched, so dispatch is being held up
+		for _, r := range strings.Fields(roles(x.Blocked)) {
+			if (strings.HasPrefix(r, "handler@gate:") || strings.HasPrefix(r, "conn-loop@gate:")) && hasProp(sc, "C06") {
+				addOnce("C06", "handlers are not dispatched concurrently: a handler waiting for a later request to start blocks the connection; "+key, blocked)
+			}
+		}
 		if strings.Contains(blocked, "gate:started") {
-			add("C06", "handlers are not dispatched concurrently: a handler waiting for a later request to start blocks the connection; "+key, blocked)
+			addOnce("C06", "handlers are not dispatched concurrently: a handler waiting for a later request to start blocks the connection; "+key, blocked)
+		}
+		// C07: a connection other than the faulty one is still waiting for the server
+		if hasProp(sc, "C07") {
+			for _, b := range x.Blocked {
+				name := b
+				if at := strings.IndexByte(b, '@'); at >= 0 {
+					name = b[:at]
+				}
+				if ci := clientIndex(sp, name); ci >= 0 && name != "faulty" && (strings.Contains(b, ".Read") || strings.Contains(b, "Dial")) {
+					addOnce("C07", "another connection is never served after a fault on one connection; "+key, blocked)
+				}
+			}
+		}
+		// C08: Stop has been called (or the client is gone) and a connection is never closed and reported
+		if stopBlocked && hasProp(sc, "C08") {
+			unreported := !sp.Srv.NoOnClose && vnet.Accepted() >= 0 && len(w.OnClose) < vnet.Accepted()
+			if open := vnet.OpenServerEndpoints(); len(open) > 0 || unreported {
+				addOnce("C08", "a connection is never closed and reported via OnClose: its teardown blocks forever; "+key, fmt.Sprintf("open server sockets %v, accepted=%d OnClose calls=%v; %s", open, vnet.Accepted(), w.OnClose, blocked))
+			}
 		}
 		return fs
 	}
@@ -240,7 +290,7 @@ func universal(sc *Scn, x *vrt.Sched, w *World) []Finding {
 		for _, e := range events {
 			if (e.kind == "h-enter" || e.kind == "h-exit") && e.conn == conn && e.pos > closePos {
 				add("C08", "the socket is closed before a handler of that connection has returned", fmt.Sprintf("%q at %d, socket closed at %d; log: %v", e.raw, e.pos, closePos, x.Log))
-				if ci >= 0 && ci < len(sp.Conns) && hasOp(sp.Conns[ci].Ops, "unbind") {
+				if ci >= 0 && ci < len(sp.Conns) && (hasOp(sp.Conns[ci].Ops, "unbind") || hasOp(sp.Conns[ci].Ops, "unbind0")) {
 					add("C10", "after an Unbind the connection is closed before an earlier in-flight handler has finished", fmt.Sprintf("%q at %d, socket closed at %d; log: %v", e.raw, e.pos, closePos, x.Log))
 				}
 			}
@@ -280,8 +330,8 @@ func universal(sc *Scn, x *vrt.Sched, w *World) []Finding {
 
 	// ---- C06: Request.ID is the arrival number
 	for _, d := range w.Dispatch {
-		k := int(d.MsgID % 1000)
-		if k != 99 && d.Req != k {
+		k := reqOfMsg(d.MsgID)
+		if k != 99 && k != 90 && d.Req != k {
 			add("C06", "Request.ID is not the request's arrival number on its connection", fmt.Sprintf("message %d (request #%d of its connection) saw Request.ID %d", d.MsgID, k, d.Req))
 		}
 	}
@@ -307,11 +357,11 @@ func universal(sc *Scn, x *vrt.Sched, w *World) []Finding {
 				cl = c
 			}
 		}
-		if cl == nil || cl.DialErr != nil || !stopped {
-			continue
+		if cl == nil || cl.DialErr != nil || !stopped || sp.StopWhen != "" || len(cl.Frames) < cs.Expect {
+			continue // Stop may have come before the request was read
 		}
 		for k, op := range cs.Ops {
-			if op == "unbind" || op == "garbage" || op == "compare" {
+			if isUnbind(op) || op == "garbage" || op == "compare" || op == "starttls-silent" {
 				break
 			}
 			if h := cs.H[k+1]; h != nil && h.Panic != "" {
@@ -327,7 +377,7 @@ func universal(sc *Scn, x *vrt.Sched, w *World) []Finding {
 	for ci, cs := range sp.Conns {
 		u := -1
 		for k, op := range cs.Ops {
-			if op == "unbind" {
+			if isUnbind(op) {
 				u = k + 1
 				break
 			}
@@ -336,7 +386,7 @@ func universal(sc *Scn, x *vrt.Sched, w *World) []Finding {
 			continue
 		}
 		for _, d := range w.Dispatch {
-			if clientOfMsg(d.MsgID) == ci && int(d.MsgID%1000) > u && d.Route != "unbind" {
+			if clientOfMsg(d.MsgID) == ci && reqOfMsg(d.MsgID) > u && d.Route != "unbind" {
 				add("C10", "a request that follows an Unbind on the same connection is dispatched", fmt.Sprintf("message %d (%s) dispatched; Unbind was request #%d", d.MsgID, d.Route, u))
 			}
 		}
@@ -381,10 +431,15 @@ func universal(sc *Scn, x *vrt.Sched, w *World) []Finding {
 		for _, f := range frames {
 			r, err := codec.ParseResponse(f)
 			if err == nil && r.MsgID == 0 {
+				// a frame with message ID 0 is gldap's own notice of disconnection - unless the client sent an
+				// Unbind with message ID 0 and this is an answer to it
+				if hasOp(sp.Conns[ci].Ops, "unbind0") && !(r.RespName != nil && *r.RespName == "1.3.6.1.4.1.1466.20036") {
+					add("C10", "gldap itself answers an Unbind request", fmt.Sprintf("client %s got % x", c.Name, f))
+				}
 				continue
 			}
 			if err == nil && r.Code == 53 && !contains(wrote, f) {
-				if hasUnbindAt(sp, ci, int(r.MsgID%1000)) {
+				if hasUnbindAt(sp, ci, reqOfMsg(r.MsgID)) {
 					add("C10", "gldap itself answers an Unbind request", fmt.Sprintf("client %s got % x", c.Name, f))
 				}
 				continue // built-in refusal
@@ -451,7 +506,7 @@ func hasUnbindAt(sp *Spec, ci, k int) bool {
 	if ci < 0 || ci >= len(sp.Conns) || k < 1 || k > len(sp.Conns[ci].Ops) {
 		return false
 	}
-	return sp.Conns[ci].Ops[k-1] == "unbind"
+	return isUnbind(sp.Conns[ci].Ops[k-1])
 }
 
 func clientIndex(sp *Spec, name string) int {
@@ -543,6 +598,15 @@ func roles(blocked []string) string {
 func hasOp(ops []string, op string) bool {
 	for _, o := range ops {
 		if o == op {
+			return true
+		}
+	}
+	return false
+}
+
+func hasProp(sc *Scn, p string) bool {
+	for _, q := range sc.Props {
+		if q == p {
 			return true
 		}
 	}
